@@ -1435,6 +1435,7 @@ def api_outside_table():
 def execute(trace, solo=None, alarm=None):
     """Entry point inside a forked child."""
     kernel.import_library()
+    alarm = alarm or trace.get("alarm")
     if alarm:
         kernel.CALL_ALARM_S = alarm
     sim = Sim(trace, solo).run()
@@ -1652,7 +1653,17 @@ def has_hang(transcript):
 def check_trace_full(trace, alarm=None):
     """Run the interleaved history and one solo history per client, each in
     its own fresh fork; compare.  Returns (violations, result-dict)."""
-    inter = kernel.in_fresh_fork(execute, (trace, None, alarm))
+    lazy = bool(trace.get("pre_import_mode"))
+    if lazy:
+        # the interleaved history in an interpreter that imported the
+        # operators and the command line only AFTER a calendar was chosen
+        import json
+        inter = kernel.run_lazy_import(
+            PROP, dict(trace, alarm=alarm) if alarm else trace)
+        inter["transcripts"] = {int(k): v
+                                for k, v in inter["transcripts"].items()}
+    else:
+        inter = kernel.in_fresh_fork(execute, (trace, None, alarm))
     violations = list(inter["violations"])
     counters = dict(inter["counters"])
     used = sorted(set(s["c"] for s in trace["steps"] if s["k"] == "op"
@@ -1660,6 +1671,9 @@ def check_trace_full(trace, alarm=None):
     solos = {}
     for cid in used:
         solo = kernel.in_fresh_fork(execute, (trace, cid, alarm))
+        if lazy:
+            solo["transcripts"][cid] = json.loads(json.dumps(
+                solo["transcripts"][cid]))
         solos[cid] = solo["transcripts"][cid]
         got = inter["transcripts"][cid]
         want = solo["transcripts"][cid]
@@ -1747,6 +1761,16 @@ def make_trace(job):
     rng = kernel.run_rng(PROP, seed, index, kind)
     if kind == "directed":
         return gen_directed(rng, index)
+    if kind == "lazyimport":
+        # a random history in an interpreter whose application imported only
+        # the data model, chose a calendar and computed with it BEFORE the
+        # operators and the command line were imported
+        trace = gen_random(rng, index)
+        if len(trace["steps"]) > 200:
+            trace["steps"] = trace["steps"][:200]
+        trace.update(kind="lazyimport", pre_import_mode=model.SPELLINGS[
+            1 + index % (len(model.SPELLINGS) - 1)])
+        return trace
     return gen_random(rng, index)
 
 
@@ -1810,7 +1834,9 @@ def jobs_for(tier, seed):
         n_dir, n_rand = 42 * 2, 1150
     else:
         n_dir, n_rand = 42 * 6, 60000
-    jobs = [("directed", seed, i) for i in range(n_dir)]
+    jobs = [("lazyimport", seed, i) for i in range(
+        12 if tier == "quick" else 300)]
+    jobs += [("directed", seed, i) for i in range(n_dir)]
     rand = [("random", seed, i) for i in range(n_rand)]
     if tier == "quick":
         # longest histories first, so that no marathon starts last (pure
